@@ -92,9 +92,10 @@ theorem model_forward_refines (pi : Rat) (t : Term) (e : GEntry) (ha : t.a ≠ 0
     Model.modelTerm pi false 0 t = some (ftTerm pi t) :=
   model_forward_refines_aux pi t e ha similarity_code_is_theorem.1 similarity_code_is_theorem.2.1 hk hk' h1 h2 h3 h4 h5 hl hpair
 
-/-- … and for the trapezoid, when the branch returns the pair (`trap_entry_is_pair` in Props/C12Trap.lean) -/
-theorem model_trap_refines (pi : Rat) (t : Term) (al : Rat) (ha : t.a ≠ 0) (hk : t.k = .trap al) (h : Gen.trapAlphaPow = some 0) :
-    Model.modelTerm pi false 0 t = some (ftTerm pi t) := by
+/-- … and for the trapezoid: with the exponent `p` that the source writes (`α^p·sincn(f)·sincn(αf)`, GENERATED), the code computes
+    `α^p` times the spec transform of every scaled / shifted / modulated trapezoid; `p = 0` is the pair (Props/C12Trap.lean) -/
+theorem model_trap_refines (pi : Rat) (t : Term) (al : Rat) (p : Int) (ha : t.a ≠ 0) (hk : t.k = .trap al) (h : Gen.trapAlphaPow = some p) :
+    Model.modelTerm pi false 0 t = some ((ftTerm pi t).map (smulT (CQ.ofRat (zpow al p)))) := by
   obtain ⟨c, ph, th, k, a, b⟩ := t
   simp only at ha hk
   subst hk
@@ -103,7 +104,7 @@ theorem model_trap_refines (pi : Rat) (t : Term) (al : Rat) (ha : t.a ≠ 0) (hk
     simShift_forward a b _ similarity_code_is_theorem.1 similarity_code_is_theorem.2.1, Option.map_some, Option.some.injEq,
     shiftE, smulE, modE, scaleE, List.map_map, ftTerm, ftKind, List.map_cons, List.map_nil, List.cons.injEq, and_true]
   apply Term.ext' <;> simp only [Function.comp, shiftT, smulT, modT, scaleT]
-  · ext <;> simp [CQ.smul, CQ.mul_re, CQ.mul_im, CQ.ofRat, zpow, CQ.one_re, CQ.one_im] <;> ring
+  · ext <;> simp [CQ.smul, CQ.mul_re, CQ.mul_im, CQ.ofRat, CQ.one_re, CQ.one_im] <;> ring
   all_goals (simp; try (field_simp); try ring)
 
 /-! ## frequency variables -/
